@@ -78,6 +78,10 @@ fn main() {
     }
     let code = match prop.as_str() {
         "C01" => props::c01::check(&ctx),
+        "C02" => props::c02::check(&ctx),
+        "C03" => props::c03::check(&ctx),
+        "C04" => props::c04::check(&ctx),
+        "C13" => props::c13::check(&ctx),
         _ => {
             eprintln!("unknown property {prop}");
             2
